@@ -224,6 +224,13 @@ class SimStream:
         self.faults_fired = []
         self.encoding = "utf-8"
 
+    def reset(self, tty=True, fail_write_at=None, fail_flush=False, err=errno.EPIPE):
+        """The same stream object, re-used by a later call (a terminal whose
+        tty-ness or health changed in between)."""
+        self.tty, self.fail_write_at, self.fail_flush, self.err = \
+            tty, fail_write_at, fail_flush, err
+        self.writes, self.calls, self.faults_fired = [], [], []
+
     def isatty(self):
         self.calls.append("isatty")
         return self.tty
@@ -377,8 +384,10 @@ class SimStdin:
     """sys.stdin stand-in: .buffer is a real BufferedReader over SimRawIn;
     text-mode reads decode strictly as UTF-8 (as a real stdin would)."""
 
-    def __init__(self, data: bytes, chunk_plan, buffer_size=8192):
+    def __init__(self, data: bytes, chunk_plan, buffer_size=8192, tty=False):
         self.raw = SimRawIn(data, chunk_plan)
+        self.tty = tty
+        self.raw.isatty = lambda: tty
         self.buffer = io.BufferedReader(self.raw, buffer_size=buffer_size)
         self._text = io.TextIOWrapper(self.buffer, encoding="utf-8", errors="strict",
                                       write_through=True)
@@ -389,7 +398,7 @@ class SimStdin:
         return 0
 
     def isatty(self):
-        return False
+        return self.tty
 
     def read(self, n=-1):
         self.text_reads += 1
